@@ -83,6 +83,46 @@ def drive_case(rng, a, th, tracked, sample_lists, nops, cmap, tmap, script=None)
                 maps=[cmap.kind, tmap.kind, tmap.offset])
 
 
+def replay_behaviour(b, rng):
+    """spec -> code: replay one TLC behaviour on a real Tree, compare after every action"""
+    a = dict(b["ts"])
+    a.setdefault("sites", [])
+    a.setdefault("muts", [])
+    cmap, tmap = gen.random_maps(rng)
+    tables = gen.build_tables(a, cmap, tmap)
+    if [int(x) for x in tables.indexes.edge_insertion_order] != list(a["ins"]) or \
+            [int(x) for x in tables.indexes.edge_removal_order] != list(a["rem"]):
+        return "index order differs from the spec's"
+    ts = tables.tree_sequence()
+    kw = dict(root_threshold=b["th"], sample_lists=rng.random() < 0.5)
+    if b["tracked"]:
+        kw["tracked_samples"] = list(b["tracked"])
+    t = tskit.Tree(ts, **kw)
+    for i, ev in enumerate(b["hist"]):
+        op, arg = ev["op"], ev["arg"]
+        if op == "seek":
+            x = cmap(arg) if rng.random() < 0.5 else (cmap(arg) + cmap(arg + 1)) / 2
+            t.seek(x)
+        elif op == "seek_index":
+            t.seek_index(arg)
+        else:
+            r = getattr(t, op)()
+            if op in ("next", "prev") and bool(r) != (ev["exp"]["index"] != -1):
+                return "step %d %s returned %r" % (i, op, r)
+        ob = observe_tree(t, cmap, full=False)
+        exp = ev["exp"]
+        N = ts.num_nodes
+        got = dict(index=ob["index"], left=ob["left"], right=ob["right"], parent=ob["parent"][:N], edge=ob["edge"][:N],
+                   ns=ob["ns"], nt=ob["nt"], roots=sorted(ob["roots"]), numEdges=ob["num_edges"])
+        want = dict(exp)
+        want["roots"] = sorted(want["roots"])
+        if got != want:
+            diff = [k for k in want if got[k] != want[k]]
+            return "step %d %s(%s): fields %s differ: got %s want %s" % (
+                i, op, arg, diff, {k: got[k] for k in diff}, {k: want[k] for k in diff})
+    return None
+
+
 def random_case(rng, big=True):
     if big:
         a = gen.random_abstract(rng, N=rng.randint(2, 8), K=rng.randint(1, 6), max_edges=14)
@@ -119,9 +159,58 @@ def run():
         else:
             raise common.MachineryError("MC_TreeCursor did not complete:\n" + mc["out"][-3000:])
     chk.exhaustive = mc["ok"]
+    # (2) spec -> code
+    beh, _ = common.tlc_simulate_json("Sim_TreeCursor", num=20 if QUICK else 400, depth=11, seed=SEED + 1,
+                                      timeout=600 if QUICK else 3000)
+    nsteps = 0
+    for b in beh:
+        err = replay_behaviour(b, rng)
+        nsteps += len(b["hist"])
+        chk.note_case(dict(s2c=b["ts"], th=b["th"], tr=b["tracked"], ops=[(e["op"], e["arg"]) for e in b["hist"]]),
+                      len({e["exp"]["index"] for e in b["hist"]}) >= 3)
+        if err:
+            chk.violation("spec->code replay: " + err, b)
+        else:
+            chk.traces += 1
+    chk.extra["s2c"] = dict(behaviours=len(beh), steps=nsteps)
+    if not beh:
+        raise common.MachineryError("no behaviours from Sim_TreeCursor")
     # (3) code -> spec
     n = 400 if QUICK else 6000
     cases = [random_case(rng, big=(i % 3 != 0)) for i in range(n)]
+    # binding self-test: corrupt one recorded field in copies of accepted-looking traces;
+    # every corrupted trace must be rejected, otherwise the trace spec is vacuous
+    import copy
+    corrupted = []
+    for c in cases[:40]:
+        if len(c["ops"]) < 3:
+            continue
+        d = copy.deepcopy(c)
+        e = d["ops"][rng.randrange(len(d["ops"]))]
+        what = rng.choice(["parent", "ns", "index", "roots", "right_sib", "ret"])
+        if what == "parent":
+            e["obs"]["parent"][0] = 0 if e["obs"]["parent"][0] != 0 else -1
+        elif what == "ns":
+            e["obs"]["ns"][-2] += 1
+        elif what == "index":
+            e["obs"]["index"] += 1
+        elif what == "roots":
+            e["obs"]["roots"] = e["obs"]["roots"][1:] if e["obs"]["roots"] else [0]
+        elif what == "right_sib":
+            e["obs"]["right_sib"][0] = 0 if e["obs"]["right_sib"][0] != 0 else 1
+        elif what == "ret":
+            if e["op"] not in ("next", "prev"):
+                continue
+            e["ret"] = 1 - e["ret"]
+        d["corrupt"] = what
+        corrupted.append(d)
+        if len(corrupted) >= 8:
+            break
+    cv, cst = common.tlc_validate("Trace_TreeCursor", corrupted, chunks=4)
+    accepted = [d["corrupt"] for d in corrupted if not cv[d["id"]]]
+    chk.extra["binding_selftest"] = dict(corrupted=len(corrupted), rejected=len(corrupted) - len(accepted))
+    if accepted:
+        raise common.MachineryError("trace spec accepted corrupted traces: %s" % accepted)
     verdicts, st = common.tlc_validate("Trace_TreeCursor", cases)
     chk.add_tlc(st)
     chk.extra["c2s"] = dict(cases=len(cases), steps=sum(len(c["ops"]) for c in cases), tlc_wall=round(st["wall"], 1))
